@@ -21,7 +21,7 @@ CHECKS = {
    text='LexOptimal/FrozenHolds model-checked (freeze pipeline = declarative lexicographic optimum); ordered lists of 2-9 criteria with permuted flags and gaps replayed: optimum at every solve and every returnable final point must be the specified lexicographic optimum.',
    tech='TLC model checking + replay with exact IP enumeration + trace validation of real-CBC runs (Trace_Pipe.tla)'),
  'C05': dict(cat='model_checking', sec='6 C05',
-   text='IP-level model of the alpha/beta/gamma constraints proved equal to {valid and stable} on all 0/1 points (TLC); admissible set of the real stability IP must EQUAL the stable matchings of the specification on every two-sided family instance (set equality), incl. ties, shared lecturers, zero capacities.',
+   text='IP-level model of the alpha/beta/gamma constraints proved equal to {valid and stable} on all 0/1 points (TLC); admissible set of the real stability IP must EQUAL the stable matchings of the specification on every two-sided family instance (set equality), incl. ties, shared lecturers, zero capacities. A crowd embedding (33 / 40 further students on one lecturer list, their only choice of upper quota 0) gives lecturer lists of 36+ pairs around a TLC-enumerable 3-student core.',
    tech='TLC model checking (StabIP) + exact projection of the real IP compared by set equality + trace validation of real-CBC -stab runs'),
  'C06': dict(cat='model_checking', sec='6 C06',
    text='Checker loop modelled in TLA+ and proved equal to the SPA-STL definition on every upper-quota-respecting assignment (TLC); real Model.check_stability called on every such assignment of every exported instance.',
@@ -39,7 +39,7 @@ CHECKS = {
    text='SecondSideOK model-checked over all draws (MPGen.tla); every generated two-sided file validated by Trace_Gen.tla clause second_side_exactly_rankers (each second-side agent lists exactly the first-side agents ranking it / one of its projects, once).',
    tech='TLC model checking of MPGen + trace validation (Trace_Gen.tla)'),
  'C10': dict(cat='model_checking', sec='6 C10',
-   text='TLC renders every family file character by character (three whitespace styles, with/without parameter block, 2/3-agent, lists used/ignored), proves ParseFile(Render(fc)) = Denote(fc), and the loaded Model is compared field by field with the denoted instance.',
+   text='TLC renders every family file character by character (three whitespace styles, with/without parameter block, 2/3-agent, lists used/ignored), proves ParseFile(Render(fc)) = Denote(fc), and the loaded Model is compared field by field with the denoted instance. A split id embedding puts student numbers 1 and 257+ (1002+) on the same second-side lists; the comparison of the loaded instance is total (an instance of another shape is a verdict).',
    tech='TLC model checking (ReadRender) + replay of rendered bytes into Solver'),
  'C11': dict(cat='model_checking', sec='6 C11',
    text='With no criterion every valid matching is optimal; the stand-in returns each in turn and every field and listing of the short and long result text is compared with the statistics defined in MPDefs.tla.',
